@@ -88,6 +88,8 @@ EMPTY_MATTERS = {
     "expected_value": "value a variant pattern matches", "value": "value of a communication parameter / special data",
     "text": "text of a DTC / description",
 }
+# fields that only exist together (one XML element carries both): setting one of them alone is not a database the parser can produce
+COMPANIONS = {("DiagVariable", "table_snref"): "table_row_snref", ("DiagVariable", "table_row_snref"): "table_snref"}
 PRESENCE_FLAGS = {("EnvironmentData", "all_value"): "presence of the empty element ALL-VALUE: the parser yields None or True, never False"}
 CHOICE_GROUPS = {
     "Field": ("structure_ref", "structure_snref", "env_data_desc_ref", "env_data_desc_snref"),
@@ -207,6 +209,8 @@ def base_members(base: str, off: Sequence[str]) -> Dict[str, bytes]:
             _MEMBERS[key] = E.members(off)
         elif base.startswith("ks@"):  # the kitchen sink in another ODX model version
             _MEMBERS[key] = E.members(off, base[3:])
+        elif base == "dv":  # minimal database of its own with DIAG-VARIABLES
+            _MEMBERS[key] = E.dv_members()
         elif base.startswith("mini@"):  # a small database the way ODX before 2.2 has it
             _MEMBERS[key] = E.mini_members(base[5:])
         elif base.endswith("-written"):  # what write_pdx_file makes of a database (archive to be extracted / listed / loaded again)
@@ -288,6 +292,10 @@ def site_kinds(s: R.Site) -> List[Tuple[str, Optional[str]]]:
             for (c, f), w in NUMERIC_TEXT.items():
                 if f == s.field and c in owner_names:
                     why = "lexical domain: " + w
+        if k in ("set", "empty") and s.value is None:
+            for (c, f), other in COMPANIONS.items():
+                if f == s.field and c in owner_names and getattr(s.owner, other, None) is None:
+                    why = f"lexical domain: {f} and {other} only exist together (SNREF-TO-TABLEROW)"
         if k == "flip":
             for (c, f), w in PRESENCE_FLAGS.items():
                 if f == s.field and c in owner_names:
@@ -1224,20 +1232,34 @@ def aux_read_findings(base: str, off: Sequence[str], how: str) -> List[Tuple[str
     return out
 
 
+# the construct a small dedicated base exists for: if its round trip raises, that is reported under the key of the construct
+BASE_CONSTRUCT = {"dv": "BaseVariantRaw.diag_variables_raw"}
+
+
+def baseline_findings(base: str, off: Sequence[str]) -> Tuple[str, List[Tuple[str, str]]]:
+    db = load_base(base, off)
+    out = judge(db, None, True)
+    label = BASE_CONSTRUCT.get(base)
+    findings = [((f"C11/{label}/crash" if (label and k == "C11/baseline/crash") else k), d) for k, d in out.findings]
+    return out.stage, findings
+
+
 def baseline_unit(unit: Tuple[str, Tuple[str, ...]]) -> Part:
     base, off = unit
     part = Part()
     install_template_cache()
     db = load_base(base, off)
     part.add("normalize_changes_on_fresh_base", (base, normalize_docfrags(root_of(db))))
-    out = judge(db, None, True)
+    stage, findings = baseline_findings(base, off)
     part.count("evaluations")
     part.count("baselines")
     part.add("nontrivial", digest((base, "baseline")))
     case = {"mode": "baseline", "base": base, "off": list(off)}
-    for key, detail in out.findings:
+    for key, detail in findings:
         part.violation(key, case, f"[{base}, unperturbed] {detail}")
-    part.add("baseline_stage", (base, out.stage))
+    part.add("baseline_stage", (base, stage))
+    if stage == "write":
+        return part  # (the database cannot be written at all)
     for how in AUX_READS:
         part.count("evaluations")
         for key, detail in aux_read_findings(base, off, how):
@@ -1459,7 +1481,7 @@ def run(ctx: Ctx) -> None:
         except Exception as e:
             ctx.note(f"{name} is not loadable ({type(e).__name__}: {str(e)[:80]}): not a base")
     ctx.extra["model_versions"] = {"tried": list(MODEL_VERSIONS), "bases": [b for b, _ in versioned]}
-    pmap(ctx, baseline_unit, bases + [("ks-auxnames", off)] + versioned)  # (unperturbed round trip only for the last ones)
+    pmap(ctx, baseline_unit, bases + [("ks-auxnames", off), ("dv", ())] + versioned)  # (unperturbed round trip only for the last ones)
     stages = dict(ctx.sets.pop("baseline_stage", set()))
     ctx.guard("document-fragment normalisation is a no-op on freshly loaded databases",
               all(n == 0 for _, n in ctx.sets.pop("normalize_changes_on_fresh_base", {("?", 1)})))
@@ -1587,8 +1609,7 @@ def replay(case: Any) -> List[Tuple[str, str]]:
     elif mode == "baseline" and case.get("aux_read"):
         res = aux_read_findings(case["base"], tuple(case["off"]), case["aux_read"])
     elif mode == "baseline":
-        db = load_base(case["base"], tuple(case["off"]))
-        res = judge(db, None, True).findings
+        res = baseline_findings(case["base"], tuple(case["off"]))[1]
     elif mode == "perturb":
         status, findings, new = run_perturbation(case["base"], tuple(case["off"]), [p for p in case["path"]], case["kind"])
         res = findings
